@@ -73,11 +73,12 @@ Qed.
 
 Lemma parse_option_cur f a l s : cur_el (parse_option f a l s).
 Proof.
-  unfold parse_option. destruct (nextvis f l s) as [[c r] s1].
-  destruct (c <? 0).
-  - destruct (negb _); [apply cur_stop; codes; lia|]. apply cur_stop. destruct (pelems _); codes; lia.
-  - destruct (_ && _ && _); [apply cur_stop; codes; lia|].
-    eapply curok_opt; [|apply option_loop_cur]. now autorewrite with pst.
+  unfold parse_option. set (named := araw a && negb (valid s =? 0) && (ostart f =? 0)).
+  destruct (if named then getchar l s else nextvis f l s) as [[c r] s1].
+  clearbody named. destruct (c <? 0).
+  - destruct (negb (c =? -2)); [apply cur_stop; codes; lia|]. apply cur_stop. destruct (pelems _); codes; lia.
+  - destruct (negb (ostart f =? 0) && negb (c =? ostart f) && negb (valid s1 =? 0)); [apply cur_stop; codes; lia|].
+    eapply curok_opt; [|apply option_loop_cur]. destruct named; now autorewrite with pst.
 Qed.
 
 Lemma section_add_cur take cur l s : (cur = 1 \/ cur = 9) -> cur_el (section_add take cur l s).
